@@ -122,6 +122,32 @@ func (c *c04pCapInformer) handlers() []k8scache.ResourceEventHandler {
 	return append([]k8scache.ResourceEventHandler(nil), c.got...)
 }
 
+// what client-go hands to OnDelete for an object whose deletion is noticed on re-list: produced by a real cache.DeltaFIFO
+// (known-objects store holding `obj`, Replace with the empty list)
+func c04pTombstone(obj interface{}) interface{} {
+	store := k8scache.NewStore(k8scache.MetaNamespaceKeyFunc)
+	if err := store.Add(obj); err != nil {
+		return nil
+	}
+	fifo := k8scache.NewDeltaFIFOWithOptions(k8scache.DeltaFIFOOptions{KeyFunction: k8scache.MetaNamespaceKeyFunc, KnownObjects: store})
+	if err := fifo.Replace(nil, "2"); err != nil {
+		return nil
+	}
+	fifo.Close() // Pop must not block when nothing was queued
+	var out interface{}
+	_, _ = fifo.Pop(func(d interface{}, _ bool) error {
+		if ds, ok := d.(k8scache.Deltas); ok {
+			for _, delta := range ds {
+				if delta.Type == k8scache.Deleted {
+					out = delta.Object
+				}
+			}
+		}
+		return nil
+	})
+	return out
+}
+
 type c04pSuit struct {
 	podCap *c04pCapInformer
 	fh     framework.Framework
@@ -807,8 +833,13 @@ func TestVerifC04Plugin(t *testing.T) {
 				if err != nil {
 					panic(err)
 				}
+				tombstone := c04pTombstone(last)
+				if tombstone == nil {
+					tombstone = k8scache.DeletedFinalStateUnknown{Key: ns + "/" + last.Name, Obj: last}
+					h.Tag("tombstone:built by hand")
+				}
 				for _, eh := range su.podCap.handlers() {
-					eh.OnDelete(k8scache.DeletedFinalStateUnknown{Key: ns + "/" + last.Name, Obj: last})
+					eh.OnDelete(tombstone)
 				}
 			})
 			ps.added, ps.bound, ps.seenNode, ps.gone = false, false, false, true
